@@ -126,3 +126,64 @@ package decoder
 //@   requires 1 <= len(b.ecBlocks) && len(b.ecBlocks) <= 2
 //@   ensures r == b.ecCodewordsPerBlock * nblocks(b)
 //@   modifies nothing
+
+// ---------------------------------------------------------------- data mask predicates (ISO/IEC 18004 table 10)
+// maskISO(m, i, j): mask condition of pattern m at row i, column j, written as in the standard
+
+//@ spec func maskISO(m int, i int, j int) bool = m == 0 ? (i + j) % 2 == 0 : (m == 1 ? i % 2 == 0 : (m == 2 ? j % 3 == 0 : (m == 3 ? (i + j) % 3 == 0 : (m == 4 ? (i/2 + j/3) % 2 == 0 : (m == 5 ? (i*j) % 2 + (i*j) % 3 == 0 : (m == 6 ? ((i*j) % 2 + (i*j) % 3) % 2 == 0 : ((i + j) % 2 + (i*j) % 3) % 2 == 0))))))
+
+//@ func anon(init, 0) (i int, j int) (r bool)
+//@   property C07 C01
+//@   requires 0 <= i && 0 <= j
+//@   ensures r == maskISO(0, i, j)
+//@ func anon(init, 1) (i int, j int) (r bool)
+//@   property C07 C01
+//@   requires 0 <= i && 0 <= j
+//@   ensures r == maskISO(1, i, j)
+//@ func anon(init, 2) (i int, j int) (r bool)
+//@   property C07 C01
+//@   requires 0 <= i && 0 <= j
+//@   ensures r == maskISO(2, i, j)
+//@ func anon(init, 3) (i int, j int) (r bool)
+//@   property C07 C01
+//@   requires 0 <= i && 0 <= j
+//@   ensures r == maskISO(3, i, j)
+//@ func anon(init, 4) (i int, j int) (r bool)
+//@   property C07 C01
+//@   requires 0 <= i && 0 <= j
+//@   ensures r == maskISO(4, i, j)
+//@ func anon(init, 5) (i int, j int) (r bool)
+//@   property C07 C01
+//@   requires 0 <= i && 0 <= j
+//@   ensures i*j >= 0 ==> r == maskISO(5, i, j)
+//@ func anon(init, 6) (i int, j int) (r bool)
+//@   property C07 C01
+//@   requires 0 <= i && 0 <= j
+//@   ensures i*j >= 0 ==> r == maskISO(6, i, j)
+//@ func anon(init, 7) (i int, j int) (r bool)
+//@   property C07 C01
+//@   requires 0 <= i && 0 <= j
+//@   ensures i*j >= 0 ==> r == maskISO(7, i, j)
+
+// ---------------------------------------------------------------- block split rule (ISO/IEC 18004 table 9 via the encoder's arithmetic)
+// the encoder derives the per-block sizes from (total, data, blocks) alone; for every version/level that
+// arithmetic must reproduce the table's two groups: short blocks first, long blocks (one more data codeword) last
+//@ spec func nblk(ver *Version, l int) int = grpCount(ver, l, 0) + (ecbGroups(ver, l) == 2 ? grpCount(ver, l, 1) : 0)
+//@ lemma blockSplit(v int, l int)
+//@   property C07 C01
+//@   globals VERSIONS
+//@   opt nia=on
+//@   proof cases v 1 40, l 0 3
+//@   let ver = VERSIONS[v-1]
+//@   let total = ver.totalCodewords
+//@   let data = dataCap2(ver, l)
+//@   let n = nblk(ver, l)
+//@   ensures n >= 1 && data / n == grpData(ver, l, 0) && total / n - data / n == ecPer(ver, l) && (total / n + 1) - (data / n + 1) == ecPer(ver, l)
+//@   ensures n - total % n == grpCount(ver, l, 0) && (ecbGroups(ver, l) == 2 ==> total % n == grpCount(ver, l, 1)) && (ecbGroups(ver, l) == 1 ==> total % n == 0)
+//@   ensures total == (data / n + ecPer(ver, l)) * (n - total % n) + (data / n + 1 + ecPer(ver, l)) * (total % n)
+
+//@ func FormatInformation_NumBitsDiffering(a uint, b uint) (r int)
+//@   property C05
+//@   mode bv
+//@   ensures r == hamming(a, b, 64)
+//@   modifies nothing
